@@ -23,6 +23,7 @@ DIMS = dict(
     alg=[False, True],
     horizon=["fixed", "Tfree"],
     state=["vec2", "mat22"],
+    second=[False, True],          # a second state whose set_der (with its own scale) is called BEFORE the first one's
 )
 
 
@@ -40,9 +41,12 @@ def finish(a):
     if sz != 1 and a["alg"]: sc["z"] = sz
     if sder != 1: sc["der_x"] = ([0.5, 4.0, 2.0, 0.25] if mat else [0.5, 4.0]) if sder == "elem" else sder
     if salg != 1 and a["alg"]: sc["alg"] = salg
+    if a["second"]:
+        a["der_order"] = "reverse"
+        if sder != 1: sc["der_y"] = 5.0
     d = P.case(vg=True, vc="control", **a)
     d["scales"] = sc
-    d["cons"] = [P.con("bc0", scale=scon), P.con("x_le", scale=scon), P.con("xu_between", scale=scon), P.con("x_vec_ge", scale=scon), P.con("x_vec_mixed", scale=scon), P.con("x_vec_mixed_lb", scale=scon), P.con("vc_ge")]
+    d["cons"] = [P.con("bc0", scale=scon), P.con("x_le", scale=scon), P.con("xu_between", scale=scon), P.con("x_vec_ge", scale=scon), P.con("x_vec_mixed", scale=scon), P.con("x_vec_mixed_lb", scale=scon), P.con("x_le_xv", scale=scon), P.con("vc_ge")]
     # scaled constraints on the finer grids (every call site that forwards scale=)
     d["cons"].append(P.con("x_le", grid="integrator", scale=scon))
     if a["method"] == "DC":
@@ -64,7 +68,7 @@ def cases(tier):
         seen.add(h)
         out.append(dict(d=d, dev=dev))
     # every scale slot (and all slots together) x every method x M x DAE: the sub-product the deviation bound would only reach at k=4
-    slots = [("sx", 3), ("sx", "elem"), ("mat", "sx"), ("mat", "sder"), ("mat", "both"), ("su", 0.25), ("svg", 3), ("svc", 0.25), ("sz", 3), ("sder", 3), ("sder", "elem"), ("salg", 0.25), ("scon", 3), ("scon", 0.25)]
+    slots = [("sx", 3), ("sx", "elem"), ("mat", "sx"), ("mat", "sder"), ("mat", "both"), ("second", "sder"), ("su", 0.25), ("svg", 3), ("svc", 0.25), ("sz", 3), ("sder", 3), ("sder", "elem"), ("salg", 0.25), ("scon", 3), ("scon", 0.25)]
     for meth in DIMS["method"]:
         for M in (1, 2):
             for al in (False, True):
@@ -73,6 +77,8 @@ def cases(tier):
                     a.update(method=meth, M=M, alg=al, N=3 if M == 2 else 2)
                     if sl == "all":
                         a.update(sx="elem", su=0.25, svg=3, svc=0.25, sz=3, sder="elem", salg=0.25, scon=3)
+                    elif sl[0] == "second":
+                        a.update(second=True, sder=3)
                     elif sl[0] == "mat":
                         # matrix-valued state with element-wise scales (column-major element order)
                         a.update(state="mat22")
@@ -153,7 +159,9 @@ def semantics(case, res, tags):
     # (b) solver variables are the physical ones divided by their scale: every decision coordinate moves
     # the labelled physical entries it owns by exactly the declared scale
     nx_ = P.nx_of(d)
-    exp = {"X": scale_of(d, "x", nx_), "Xi": scale_of(d, "x", nx_), "Xr": scale_of(d, "x", nx_), "U": scale_of(d, "u", 1),
+    nxx = [r_ * c_ for n_, (r_, c_) in P.state_shapes(d) if n_ == "x"][0]
+    sx_all = np.concatenate([scale_of(d, "x", nxx), np.ones(nx_ - nxx)])      # (a second state is declared without a scale)
+    exp = {"X": sx_all, "Xi": sx_all, "Xr": sx_all, "U": scale_of(d, "u", 1),
            "vg": scale_of(d, "vg", 1), "vc": scale_of(d, "vc", 1), "Zr": scale_of(d, "z", 1)}
     owned = set()
     for i in range(nlp.nx):
@@ -191,6 +199,11 @@ def semantics(case, res, tags):
     if d["alg"]:
         chk.append(("Zr", 0.7))      # the guess of the (scaled) algebraic variable, at the collocation roots
     for key, val in chk:
+        if key == "X" and key in qi and nx_ != nxx:
+            got_ = np.asarray(qi[key], dtype=float).reshape(nx_, -1, order="F")[:nxx]
+            if not NL.close(got_, np.full(got_.shape, val), 1e-9):
+                vios.append(dict(sig="value:x0:%s" % key, tags=tags, detail="starting %s = %s, guess %g (physical units)" % (key, got_.reshape(-1)[:4], val)))
+            continue
         if key in qi and not NL.close(qi[key], np.full(qi[key].shape, val), 1e-9):
             vios.append(dict(sig="value:x0:%s" % key, tags=tags, detail="starting %s = %s, guess %g (physical units)" % (key, qi[key].reshape(-1)[:4], val)))
     return vios
